@@ -638,8 +638,12 @@ func (e *engine) Run(src *vs.Source, tier string, idx int64) (res *simkit.RunRes
 			} else {
 				sim.Plan = vs.NewSwarmPlan(sim.Sched, [5]int{1, 6, 2, 1, 1}, 15)
 			}
-			if sim.Sched.Intn(3, "gc?") == 2 {
-				sim.GCOdds = 6
+			switch g := sim.Sched.Intn(10, "gc?"); {
+			case g >= 8: // a collection (with finalizers) at every one of the first switches
+				sim.GCOdds = 1
+				sim.GCMax = 12
+			case g >= 5:
+				sim.GCOdds = 4
 				sim.GCMax = 3
 			}
 			logs = make([]*taskLog, sc.nt)
